@@ -1156,10 +1156,10 @@ def floors(counters, tier):
         if g("comparisons_shape_op:%s:%s" % (k, op), 0) < need:
             out.append("fewer than %d comparisons after %s on %s" % (need, op, k))
     for fam in ("strings", "prefix_strings", "ints", "int_categories_float_values", "float_categories_int_values"):
-        if g("variant:categorical:" + fam, 0) < 5:
-            out.append("fewer than 5 CategoricalROI instances of family %s" % fam)
-    if g("categorical_values_wider_than_categories", 0) < 25:
-        out.append("fewer than 25 CategoricalROI comparisons with tested labels wider than the region's category array")
+        if g("variant:categorical:" + fam, 0) < 8:
+            out.append("fewer than 8 CategoricalROI instances of family %s" % fam)
+    if g("categorical_values_wider_than_categories", 0) < 80:
+        out.append("fewer than 80 CategoricalROI comparisons with tested labels wider than the region's category array")
     for mk in MATRIX_KINDS:
         if g("contains3d_calls_projection:" + mk, 0) < 40:
             out.append("fewer than 40 contains3d comparisons with projection class %s" % mk)
